@@ -13,7 +13,14 @@ RULE = ("metamorphic runs of ShapleyImportance('neighbor') on random datasets (2
         "3-4 rows, 2-3 validation points whose distances are small integers WITH ties - the points mostly share one stable ranking of the rows but differ in their tie "
         "pattern (a tie-free point next to tied ones) - accuracy and integer table utilities that are functions of the validation point; the validation set is permuted / "
         "duplicated-and-shuffled and the scores must not move (no model: with tied distances the K-NN game itself is not pinned down by the property, but whatever a point "
-        "contributes cannot depend on which point was visited before it). Non-trivial = the base score vector "
+        "contributes cannot depend on which point was visited before it); "
+        "(i) label renaming on grouped provenances WITH IN-UNIT TIES (K=1, accuracy): 2-8 units (some possibly owning no row) given as a unit-id array, as "
+        "Provenance(units=n, data=groups) or as a provenance filtered with provenance[mask]; 1-3 rows per unit; small-integer distances with exact ties, among them surely "
+        "a unit owning two rows with DIFFERENT labels that are equidistant from a validation point and are that unit's nearest rows to it (recorded distance matrix, or "
+        "1-2-dimensional small-integer features with the default distance, the second row being the mirror image of the first about the validation point); the class "
+        "labels are renamed by order-REVERSING maps (negation, reversed ranks, reversed strings, descending floats), random order-changing maps and int->str, and the "
+        "renamed run is compared with the original run only (which of the tied rows represents its unit is not prescribed, so there is no fixed expected vector and no "
+        "model request here; what is required is that the choice cannot depend on the NAMES of the classes). Non-trivial = the base score vector "
         "is not constant; distinct = distinct (dataset, transformation).")
 
 
@@ -112,6 +119,65 @@ def add_path_invariance(ctx, I, n_cases, budget):
             ctx.mismatch("scores on the K>1 / join path changed when the validation set was re-ordered (%s)" % kind, case, impl=got, spec=base)
         if ctx.elapsed() - t_start > budget:
             break
+
+
+def rename_in_unit_ties(ctx, I, n_cases):
+    """(i) consistent renaming of the class labels when some unit owns equally near rows with different labels: original run vs renamed run"""
+    from sklearn.neighbors import KNeighborsClassifier
+    rng = ctx.rng
+    for it in range(n_cases):
+        ds = dsm.rand_in_unit_tie_dataset(rng)
+        classes = ds["classes"]
+        k = len(classes)
+        mode = ["reverse", "negate", "shuffle", "str-reversed", "float-descending", "swap-two", "str"][it % 7]
+        if mode == "reverse":
+            tgt = classes[::-1]                                                   # the same names, handed out in the opposite order
+        elif mode == "negate":
+            tgt = [-cl - 1 for cl in classes]
+        elif mode == "shuffle":
+            tgt = rng.sample(range(100, 200), k)
+        elif mode == "str-reversed":
+            tgt = ["c%03d" % (900 - 7 * i) for i in range(k)]
+        elif mode == "float-descending":
+            tgt = [2.5 - 0.75 * i for i in range(k)]
+        elif mode == "swap-two":
+            a, b = rng.sample(range(k), 2)
+            tgt = list(classes)
+            tgt[a], tgt[b] = tgt[b], tgt[a]
+        else:
+            tgt = ["c%03d" % (997 * (i + 3) % 1000) for i in range(k)]
+        ren = dict(zip(classes, tgt))
+        order_changed = any((ren[a] < ren[b]) != (a < b) for a in classes for b in classes if a != b)
+        if ds["empties"]:
+            pform = rng.choice(["explicit", "filtered"])
+        else:
+            pform = rng.choice(["array", "explicit"])
+        case = dict(part="rename-in-unit-ties", nUnits=ds["n_units"], groups=ds["groups"], empty_units=ds["empties"], provenance=pform, y_train=ds["y_train"],
+                    y_test=ds["y_test"], dist=ds["dist"].tolist(), distances=ds["kind"], X=ds["X"], Xv=ds["Xv"],
+                    in_unit_ties=[dict(unit=u, rows=[r1, r2], point=j) for (u, r1, r2, j) in ds["ties"]], rename={str(a): b for a, b in ren.items()}, mode=mode)
+
+        def scores(ytr, yte):
+            util = I["utility"].SklearnModelAccuracy(KNeighborsClassifier(1))
+            if pform == "array":
+                prov = np.array(ds["groups"])
+            else:
+                prov = dsm.empty_units_prov(I, rng, ds["groups"], ds["n_units"], pform)
+            if ds["kind"] == "features":
+                imp = I["imp"].ShapleyImportance(method="neighbor", utility=util, nn_k=1)          # the library's default distance on small-integer features
+                X, Xv = np.array(ds["X"], dtype=float), np.array(ds["Xv"], dtype=float)
+                return list(np.asarray(imp.fit(X, np.array(ytr), provenance=prov).score(Xv, np.array(yte)), dtype=float))
+            return dsm.neighbor_scores(I, ds, util, y_train=ytr, y_test=yte, provenance=prov)
+        try:
+            base = scores(ds["y_train"], ds["y_test"])
+            got = scores([ren[y] for y in ds["y_train"]], [ren[y] for y in ds["y_test"]])
+        except Exception as e:  # noqa
+            ctx.mismatch("score() raised on a grouped provenance with in-unit ties", case, impl=exc_name(e) + repr(e))
+            continue
+        ctx.case(case, nontrivial=len(set(round(x, 9) for x in base)) > 1, sample=case, kind="rename-ties:" + mode, mode="groups-" + pform,
+                 rename_changes_order=order_changed, tie_distances=ds["kind"], empty_units=bool(ds["empties"]))
+        ctx.maxi(units=ds["n_units"], rows=ds["n_rows"])
+        if len(base) != ds["n_units"] or len(got) != len(base) or any(not abs(a - b) <= 1e-9 for a, b in zip(got, base)):
+            ctx.mismatch("scores changed when the class labels were consistently renamed (a unit owns equally near rows with different labels)", case, impl=got, spec=base)
 
 
 def run(ctx):
@@ -226,5 +292,6 @@ def run(ctx):
         if ctx.elapsed() > (400 if q else 1800):
             break
     add_path_invariance(ctx, I, 6 if q else 60, 24 if q else 600)
+    rename_in_unit_ties(ctx, I, 28 if q else 400)
     return ctx.finish("proof", "C07_val_perm, C07_val_dup, C07_monotone, C07_units_perm, C07_symmetric*, C07_batch_size: invariances of the modelled kernel/neighbor "
                       "pipeline for all sizes; this run performed the corresponding metamorphic runs on the implementation, each base run also compared with the model.", RULE)
